@@ -478,7 +478,7 @@ Definition parse_op (k : stkind) (nops : nat) (st : sstate) (ts : list ttok) : o
                     | _ => OpPush (PArg t a 0) st r1
                     end
                 | TCol :: TInt sz :: TLpar :: TName a :: TRpar :: r1 =>
-                    if (is_var k || negb (all_blk_type_p t) || (sz <? 0) || (2 ^ 32 <=? sz))%bool then OpErr
+                    if (is_var k || negb (all_blk_type_p t) || (sz <? 0))%bool then OpErr
                     else OpPush (PArg t a sz) st r1
                 | TCol :: _ => OpErr
                 | _ => OpPush (PType t) st r
